@@ -3142,14 +3142,18 @@ impl Fsm {
             match datamodel.evaluate_content(&inv.content) {
                 None => Err("No content to execute".to_string()),
                 Some(content) => {
-                    let mut global = get_global!(datamodel);
-                    let session_id = global.session_id;
-
-                    let actions = global.actions.get_copy();
-                    global
-                        .executor
-                        .as_mut()
-                        .unwrap()
+                    // Don't hold the lock of the global data while the child is read and
+                    // started: the timer thread of this session needs it while it holds
+                    // the lock of an I/O processor.
+                    let (session_id, actions, mut executor) = {
+                        let global = get_global!(datamodel);
+                        (
+                            global.session_id,
+                            global.actions.get_copy(),
+                            global.executor.as_ref().unwrap().as_ref().clone(),
+                        )
+                    };
+                    executor
                         .execute_with_data_from_xml(
                             content.lock().unwrap().to_string().as_str(),
                             actions,
@@ -3163,10 +3167,15 @@ impl Fsm {
                 }
             }
         } else {
-            let mut global = get_global!(datamodel);
-            let session_id = global.session_id;
-            let actions = global.actions.get_copy();
-            global.executor.as_mut().unwrap().execute_with_data(
+            let (session_id, actions, mut executor) = {
+                let global = get_global!(datamodel);
+                (
+                    global.session_id,
+                    global.actions.get_copy(),
+                    global.executor.as_ref().unwrap().as_ref().clone(),
+                )
+            };
+            executor.execute_with_data(
                 src.to_string().as_str(),
                 actions,
                 &name_values,
